@@ -751,3 +751,33 @@ MUTANTS += [
     dict(id="c03-revert-keyword-prefixed-function-names-fix", props=["C03", "C05"], file=S + "lex.py",
          old="        elif l.accept_match(RE_FUNCTION_CALL):\n", new="        elif l.accept(\"true\"):\n            l.emit(TokenType.TRUE)\n        elif l.accept(\"false\"):\n            l.emit(TokenType.FALSE)\n        elif l.accept(\"null\"):\n            l.emit(TokenType.NULL)\n        elif l.accept_match(RE_FUNCTION_CALL):\n"),
 ]
+
+# part-by-part comparison of arrays / objects (structural induction, R06.1): broken variants of a recursive _eq
+_EQ_TAIL = "    if isinstance(left, bool):\n        return isinstance(right, bool) and left == right\n\n    return left == right\n"
+_EQ_HEAD = "    if isinstance(left, bool):\n        return isinstance(right, bool) and left == right\n\n"
+
+
+def _rec_eq(list_expr: str, dict_expr: str) -> str:
+    return (_EQ_HEAD + "    if isinstance(left, list) and isinstance(right, list):\n        return " + list_expr + "\n\n"
+            + "    if isinstance(left, dict) and isinstance(right, dict):\n        return " + dict_expr + "\n\n    return left == right\n")
+
+
+_L_OK = "len(left) == len(right) and all(_eq(a, b) for a, b in zip(left, right))"
+_D_OK = "len(left) == len(right) and all(k in right and _eq(v, right[k]) for k, v in left.items())"
+MUTANTS += [
+    dict(id="c06-rec-eq-missing-member-is-null", props=["C06"], file=FE, old=_EQ_TAIL,
+         new=_rec_eq(_L_OK, "len(left) == len(right) and all(_eq(v, right.get(k)) for k, v in left.items())")),
+    dict(id="c06-rec-eq-lengths-not-compared", props=["C06"], file=FE, old=_EQ_TAIL,
+         new=_rec_eq("all(_eq(a, b) for a, b in zip(left, right))", _D_OK)),
+    dict(id="c06-rec-eq-any-instead-of-all", props=["C06"], file=FE, old=_EQ_TAIL,
+         new=_rec_eq("len(left) == len(right) and any(_eq(a, b) for a, b in zip(left, right))", _D_OK)),
+    dict(id="c06-rec-eq-wrong-pair", props=["C06"], file=FE, old=_EQ_TAIL,
+         new=_rec_eq("len(left) == len(right) and all(_eq(a, a) for a, b in zip(left, right))", _D_OK)),
+    dict(id="c06-rec-eq-subset-of-names", props=["C06"], file=FE, old=_EQ_TAIL,
+         new=_rec_eq(_L_OK, "all(k in right and _eq(v, right[k]) for k, v in left.items())")),
+    dict(id="c06-rec-eq-skips-scalars", props=["C06"], file=FE, old=_EQ_TAIL,
+         new=_rec_eq("len(left) == len(right) and all(_eq(a, b) for a, b in zip(left, right) if isinstance(a, (list, dict)))", _D_OK)),
+    # the correct recursive comparison is right for C06 but adds a document-descending recursion without a depth
+    # discipline: '@ == @' on a self-referential value, which host == answers by identity, now exhausts the stack
+    dict(id="c18-rec-eq-correct-but-unbounded", props=["C18"], file=FE, old=_EQ_TAIL, new=_rec_eq(_L_OK, _D_OK)),
+]
